@@ -387,7 +387,7 @@ def run(ctx):
                 ctx.fail("a call failed or returned another call's data under this interleaving (or the call made "
                          "after it did)", meta, got + [after], [ref["AAAA"], ref["BB"], ref["CCC"]])
         # two calls that receive byte-identical replies (same argument): each decodes its own copy
-        for k in points[::ctx.pick(4, 1)]:
+        for k in points:
             del tr.sent[:]
             res, nev, errs = run_schedule([call(client, "AAAA"), call(client, "AAAA")], {k: 1})
             meta = {"style": style, "scenario": "same-reply-bytes", "preempt_after_event": k}
